@@ -106,6 +106,14 @@ def fam_leaf_exh(cs, rng, ops=OPS, literals=None, attrs=None, fam='leaf-exh', sp
                 text = 'x ' + sp + ' ' + render_value(lit, st)
                 cs.eval(text, mk_obj(['x'], a), fam, q=q, attr=a, op=op, lit=lit, **meta)
 
+ONE_PER_KIND = [('bool', 'true'), ('null',), ('version', '1.0.0'), ('string', 'abc'), ('string', 'Admin'), ('double', '1.5'), ('long', '1'), ('ints', ['1', '2', '5']),
+                ('doubles', ['1.5', '2.5']), ('strings', ['ABC', 'b']), ('strings', ['ops', 'admin', 'root']), ('strings', ['Admin', 'ROOT', 'Ops'])]
+
+def fam_other_typed(cs, rng, fam='other-typed-exh'):
+    """every operator x one literal of every kind (lists included) x every non-string, non-number Go type the driver can build and every
+    Stringer flavour: deterministic, independent of the sizes of the other pools"""
+    fam_leaf_exh(cs, rng, literals=ONE_PER_KIND, attrs=OTHER_TYPED + STRINGER_ATTRS + [('nil',), ('nilmap',), ('m', [(b'a', I(1))])], fam=fam)
+
 def fam_pr_exh(cs, rng, attrs=None, fam='pr-exh'):
     attrs = attrs if attrs is not None else ALL_ATTRS
     for a in attrs:
